@@ -7,11 +7,11 @@ from .rule import ok, bad, undecided
 from .rules_lw import FieldUse, PSC
 from .rules_proto import events_of
 
-SCHED_CORE = 'desync::scheduler::core::SchedulerCore'
+SCHED_CORE = 'desync::SchedulerCore'
 READ_ONLY = {'len', 'is_empty', 'iter', 'front', 'back', 'get', 'contains', 'capacity', 'deref', 'as_slices', 'fmt', 'clone'}
 
-DEQUEUE = 'desync::scheduler::job_queue::JobQueue::dequeue'
-REQUEUE = 'desync::scheduler::job_queue::JobQueue::requeue'
+DEQUEUE = 'desync::JobQueue::dequeue'
+REQUEUE = 'desync::JobQueue::requeue'
 
 
 def _mutators(ctx, adt, field):
@@ -80,7 +80,7 @@ def qd_queue(ctx):
         'push_back': (3, None),
         'pop_front': (1, {DEQUEUE}),
         'push_front': (1, {REQUEUE}),
-        'assign': (0, {'desync::scheduler::job_queue::JobQueue::new'}),
+        'assign': (0, {'desync::JobQueue::new'}),
     }, 'JobQueueCore.queue')
     # the appending functions must not be the requeue path and vice versa
     muts = _mutators(ctx, JQC, 'queue')
@@ -109,9 +109,9 @@ def qd_queue(ctx):
 def qd_pending(ctx):
     """PipeStreamCore.pending: outputs are appended by the producer only, taken from the front by the consumer only."""
     return _discipline(ctx, 'QD-pending', PSC, 'pending', {
-        'push_back': (1, {'desync::pipe::pipe'}),
-        'pop_front': (1, {'<desync::pipe::PipeStream as futures_core::stream::Stream>::poll_next'}),
-        'assign': (1, {'<desync::pipe::PipeStream as core::ops::drop::Drop>::drop', 'desync::pipe::PipeStream::new'}),
+        'push_back': (1, {'desync::pipe'}),
+        'pop_front': (1, {'<desync::PipeStream as futures_core::stream::Stream>::poll_next'}),
+        'assign': (1, {'<desync::PipeStream as core::ops::drop::Drop>::drop', 'desync::PipeStream::new'}),
     }, 'PipeStreamCore.pending')
 
 
@@ -132,7 +132,7 @@ def qd_schedule(ctx):
             if not t['args'] or t['args'][0]['k'] == 'const':
                 continue
             ty = clean_ty(t['args'][0]['pl']['ty'])
-            if ty != '&mut alloc::collections::vec_deque::VecDeque<alloc::sync::Arc<desync::scheduler::job_queue::JobQueue>>':
+            if ty != '&mut alloc::collections::vec_deque::VecDeque<alloc::sync::Arc<desync::JobQueue>>':
                 continue
             m = name.split('::')[-1]
             counts[m] += 1
@@ -151,8 +151,8 @@ def qd_once(ctx):
     """Jobs run at most once: the payload is moved out (Option::take / swap to the empty state) and the empty case panics."""
     F = ctx.F
     out = []
-    for fname, taker in (('<desync::scheduler::job::Job as desync::scheduler::job::ScheduledJob>::run', 'core::option::Option::take'),
-                         ('<desync::scheduler::future_job::FutureJob as desync::scheduler::job::ScheduledJob>::run', 'desync::scheduler::future_job::JobState::take')):
+    for fname, taker in (('desync::Job::run', 'core::option::Option::take'),
+                         ('desync::FutureJob::run', 'desync::JobState::take')):
         fn = F.fn(fname)
         key = short(fname)
         if not fn:
@@ -199,7 +199,7 @@ def qd_once(ctx):
         else:
             out.append(ok('QD-once', key, 'payload moved out once; the empty case panics', fn=fname))
     # FutureJob::run keeps the future when it is still pending
-    fj = F.fn('<desync::scheduler::future_job::FutureJob as desync::scheduler::job::ScheduledJob>::run')
+    fj = F.fn('desync::FutureJob::run')
     if fj:
         from .ordq import result_edges, edge_for, edom
         polls = [(bb, t) for bb, t in fj.calls() if (t['func'].get('fn') or '').endswith('poll_unpin') or (t['func'].get('fn') or '').endswith('Future::poll')]
@@ -225,7 +225,7 @@ def qd_once(ctx):
     else:
         out.append(undecided('QD-once', 'FutureJob::run|keeps-pending-future', 'anchor not found'))
     # JobState::take swaps in Completed
-    js = F.fn('desync::scheduler::future_job::JobState::take')
+    js = F.fn('desync::JobState::take')
     if not js:
         out.append(undecided('QD-once', 'JobState::take', 'anchor not found'))
     else:
